@@ -393,8 +393,11 @@ func (w *world) doOp(ctx context.Context, ts *taskState, op sim.Op, i int) {
 		o = recOut(r, err)
 		if err == nil {
 			ts.see(op.S, r.Version)
+			if (seq || conc) && (r.Key != op.S || !expEq(r.ExpiresAt, exp)) {
+				msg = fmt.Sprintf("Put(%q) returned a record with key %q and expiry %v, stored was key %q expiry %v", op.S, r.Key, r.ExpiresAt, op.S, exp)
+			}
 		}
-		if seq {
+		if seq && msg == "" {
 			msg = w.m.applyPut(op.S, op.V, exp, &o)
 		}
 		if conc {
@@ -451,8 +454,11 @@ func (w *world) doOp(ctx context.Context, ts *taskState, op sim.Op, i int) {
 			o.Ver = r.Version
 			o.Val = valStr(r.Value)
 			ts.see(op.S, r.Version)
+			if (seq || conc) && (r.Key != op.S || valStr(r.Value) != op.V || !expEq(r.ExpiresAt, exp)) {
+				msg = fmt.Sprintf("CasByVersion(%q) returned a record with key %q value %q expiry %v, stored was key %q value %q expiry %v", op.S, r.Key, valStr(r.Value), r.ExpiresAt, op.S, op.V, exp)
+			}
 		}
-		if seq {
+		if seq && msg == "" {
 			msg = w.m.applyCas(op.S, op.V, ver, exp, &o, t0, t1)
 		}
 		if conc {
